@@ -13,8 +13,12 @@ package storage
 //@ spec GhostException(tx crypto.Hash) bool = tx.String() == "c63b6373652def5999c1d951fcb8f064db67b7d18565847b921b21639e15dddd" ||
 //@     tx.String() == "60deaf2471bb0b6481efe9080d8852b020ab2941e7faae21989d2404f34284ee" || tx.String() == "a558b1efbe27eb6a6f902fd97d4b7e2e3099e6edde1fe6e8e41204e0685fe426"
 
+//@ -- GhostAccepts (C16): states of the GHOST/<key> entry in which lockGhostKey(tx) succeeds: no entry, or a well-formed entry (32 bytes, not the
+//@ -- zero hash) that is tx's own. (The three historical exceptions under fork are also accepted by the code; not needed and not stated.)
+//@ spec GhostAccepts(t badger.Txn, k crypto.Key, tx crypto.Hash) bool = let G == GhostOf(t, k) in G == 0 ||
+//@     (badger.vallen(G) == 32 && common.HashOfVal(G).HasValue() && G == kvval(tx))
 //@ func lockGhostKey
-//@   property C04
+//@   property C04, C16
 //@   requires txn != nil && ghost != nil
 //@   modifies *txn
 //@   ensures [bound] err == nil ==> GhostOf(*txn, *ghost) == kvval(tx) || (fork && GhostException(tx) && GhostOf(*txn, *ghost) != 0)
@@ -23,6 +27,9 @@ package storage
 //@   ensures [foreign-refused] let G == old(GhostOf(*txn, *ghost)) in G != 0 && G != kvval(tx) && !(fork && GhostException(tx)) ==> err != nil
 //@   ensures [frame] forall k mathint :: {badger.kvget(*txn, k)} k != GK(*ghost) ==> badger.kvget(*txn, k) == old(badger.kvget(*txn, k))
 //@   ensures [fail] err != nil ==> *txn == old(*txn)
+//@   ensures [db] badger.txndb(*txn) == old(badger.txndb(*txn)) -- the transaction stays attached to its DB (needed by NewTransaction/Commit style callers: C15)
+//@   hint after ValueCopy [by-id] callresult1 == nil && len(callresult0) == 32 ==> kvval(by) == kvval(callresult0) && common.HashOfVal(kvval(by)) == by -- the copy landed in `by` (capacity 32): by is the hash whose id is stored
+//@   ensures [c16-accepts] err != nil && GhostAccepts(old(*txn), *ghost, tx) ==> badger.iofail(err) -- C16: a key that is free, or bound to tx is accepted: only the store itself can fail
 
 //@ -- GhostStep(a, b, tx): only GHOST entries change, and only from "unbound" to "bound to tx": an existing binding is never overwritten.
 //@ spec GhostStep(a badger.Txn, b badger.Txn, tx crypto.Hash) bool =
@@ -64,28 +71,33 @@ package storage
 //@ -- Frame of the node/custodian/withdrawal writers called at the end of writeUTXO: they only Set keys with the prefixes
 //@ -- NODESTATE…, CUSTODIANUPDATE, WITHDRAWAL (by inspection of their key constructors in badger_node.go,
 //@ -- badger_custodian.go, badger_withdrawal.go), never a GHOST entry. ASSUMED (these functions are not under contract yet).
-//@ assume func writeNodePledge
-//@   modifies *txn
-//@   ensures forall k mathint :: {badger.kvget(*txn, k)} keykind(k) == 2 ==> badger.kvget(*txn, k) == old(badger.kvget(*txn, k))
-//@ assume func writeNodeCancel
-//@   modifies *txn
-//@   ensures forall k mathint :: {badger.kvget(*txn, k)} keykind(k) == 2 ==> badger.kvget(*txn, k) == old(badger.kvget(*txn, k))
-//@ assume func writeNodeAccept
-//@   modifies *txn
-//@   ensures forall k mathint :: {badger.kvget(*txn, k)} keykind(k) == 2 ==> badger.kvget(*txn, k) == old(badger.kvget(*txn, k))
-//@ assume func writeNodeRemove
-//@   modifies *txn
-//@   ensures forall k mathint :: {badger.kvget(*txn, k)} keykind(k) == 2 ==> badger.kvget(*txn, k) == old(badger.kvget(*txn, k))
+//@ -- writeNodePledge / writeNodeCancel / writeNodeAccept / writeNodeRemove: VERIFIED contracts in zz_contracts_c27_verif.go (property C27); they keep the
+//@ -- former assumed clauses of this file ([ghost-frame] keykind 2 untouched, [c15-frame] only kind 14 written, [c15-fail], [db]).
 //@ assume func writeCustodianNodes
 //@   modifies *txn
 //@   ensures forall k mathint :: {badger.kvget(*txn, k)} keykind(k) == 2 ==> badger.kvget(*txn, k) == old(badger.kvget(*txn, k))
-//@ assume func writeWithdrawalClaim
+//@   ensures [c15-frame] forall k mathint :: {badger.kvget(*txn, k)} keykind(k) != 15 ==> badger.kvget(*txn, k) == old(badger.kvget(*txn, k)) -- C15: its single Set writes a key of kind 15 (see zz_contracts_c15_verif.go)
+//@   ensures [c15-fail] err != nil ==> *txn == old(*txn) -- every error return precedes the Set, or is the Set's own error
+//@   ensures [db] badger.txndb(*txn) == old(badger.txndb(*txn)) -- the transaction stays attached to its DB (needed by NewTransaction/Commit style callers: C15)
+//@ -- writeWithdrawalClaim is VERIFIED since the C15/C16 work (it was an assumed frame before): see its contract below writeUTXO's callees in
+//@ -- zz_contracts_c16_verif.go is NOT possible (one contract per function), so it stays here with all former clauses kept.
+//@ func writeWithdrawalClaim
+//@   property C04, C15, C16
+//@   requires txn != nil
+//@   nopanic when ClaimPre(*txn, hash) -- C16: it panics when the referenced submission is unknown or not finalized
 //@   modifies *txn
 //@   ensures forall k mathint :: {badger.kvget(*txn, k)} keykind(k) == 2 ==> badger.kvget(*txn, k) == old(badger.kvget(*txn, k))
+//@   ensures [c15-frame] forall k mathint :: {badger.kvget(*txn, k)} keykind(k) != 16 ==> badger.kvget(*txn, k) == old(badger.kvget(*txn, k)) -- C15: its single Set writes a key of kind 16 (see zz_contracts_c15_verif.go)
+//@   ensures [c15-fail] err != nil ==> *txn == old(*txn) -- every error return precedes the Set, or is the Set's own error
+//@   ensures [db] badger.txndb(*txn) == old(badger.txndb(*txn)) -- the transaction stays attached to its DB (needed by NewTransaction/Commit style callers: C15)
+//@   ensures [c16-accepts] err != nil && TxValWf(old(badger.kvget(*txn, TK(hash)))) ==> badger.iofail(err)
+//@   ensures [claim-needs-final] err == nil ==> old(HasTx(*txn, hash)) && old(Finalized(*txn, hash)) && badger.kvget(*txn, WithdrawalKeyId(kvval(hash))) == kvval(claim) -- a claim is recorded only against a stored, finalized submission
 
 //@ func writeUTXO
 //@   trustpre PayloadHash   -- its precondition (payload well-formedness) belongs to C06; irrelevant to the ghost-key binding proved here
-//@   property C04
+//@   trustpre writeNodePledge writeNodeCancel writeNodeAccept writeNodeRemove   -- their preconditions (node-history invariants, C27: zz_contracts_c27_verif.go, where these four are now VERIFIED and keep the [ghost-frame] clause assumed below) are irrelevant to the ghost-key binding
+//@   property C04, C15, C16
+//@   nopanic when utxo.Type == common.OutputTypeWithdrawalClaim ==> ClaimPre(*txn, ver.References[0]) -- C16, in scope: script and withdrawal-claim outputs; the panics of the node/custodian writers (assumed frames) are out of C16's scope
 //@   requires txn != nil && utxo != nil && ver != nil && KeysOK(utxo.Keys)
 //@   requires [index] utxo.Index <= 1024 -- graphUtxoKey; an output index of a decoded transaction
 //@   requires [no-alias] forall i int :: {utxo.Keys[i]} 0 <= i && i < len(utxo.Keys) ==> utxo.Keys[i] != &ver.hash -- typing: a *crypto.Key never points at a crypto.Hash field (the engine keeps all byte arrays in one heap component)
@@ -94,6 +106,14 @@ package storage
 //@   ensures [foreign-refused] !GhostException(utxo.Hash) && (exists i int :: 0 <= i && i < len(utxo.Keys) && old(GhostOf(*txn, *utxo.Keys[i])) != 0 && old(GhostOf(*txn, *utxo.Keys[i])) != kvval(utxo.Hash)) ==> err != nil
 //@   ensures [no-overwrite] forall k mathint :: {badger.kvget(*txn, k)} keykind(k) == 2 && badger.kvget(*txn, k) != old(badger.kvget(*txn, k)) ==> old(badger.kvget(*txn, k)) == 0 && badger.kvget(*txn, k) == kvval(utxo.Hash)
 //@   ensures [bound] err == nil ==> forall i int :: {utxo.Keys[i]} 0 <= i && i < len(utxo.Keys) ==> GhostOf(*txn, *utxo.Keys[i]) == kvval(utxo.Hash) || (GhostException(utxo.Hash) && GhostOf(*txn, *utxo.Keys[i]) != 0)
+//@   -- C15: which keys an output may touch: its own UTXO slot, GHOST bindings (never an existing one: [no-overwrite]), and the one
+//@   -- node-state / custodian / withdrawal record of its type (kinds 14..16)
+//@   ensures [c15-frame] forall k mathint :: {badger.kvget(*txn, k)} badger.kvget(*txn, k) != old(badger.kvget(*txn, k)) ==>
+//@       keykind(k) == 2 || k == UK(utxo.Hash, utxo.Index) || keykind(k) == 14 || keykind(k) == 15 || keykind(k) == 16
+//@   ensures [c15-utxo] err == nil ==> HasUtxo(*txn, utxo.Hash, utxo.Index)
+//@   ensures [c15-hash] old(ver.hash.HasValue()) ==> ver.hash == old(ver.hash)
+//@   ensures [db] badger.txndb(*txn) == old(badger.txndb(*txn)) -- the transaction stays attached to its DB (needed by NewTransaction/Commit style callers: C15)
+//@   loop 0 invariant [db] badger.txndb(*txn) == old(badger.txndb(*txn))
 //@   loop 0 invariant [bound] forall j int :: {utxo.Keys[j]} 0 <= j && j <= rangeindex ==> GhostOf(*txn, *utxo.Keys[j]) == kvval(utxo.Hash) || (GhostException(utxo.Hash) && GhostOf(*txn, *utxo.Keys[j]) != 0)
 //@   loop 0 invariant [step] GhostStep(old(*txn), *txn, utxo.Hash)
 
